@@ -1,7 +1,8 @@
 /-
 A small, executable model of IEEE-754 binary64 values and of the few floating-point
 operations that occur in `src/lib/random/random.c` (`Random() * n`, `1 - Random()`,
-`x *= ...`, `floor`, `(int)`, `(unsigned)`), core Lean only.
+`x *= ...`, `floor`, `(int)`, `(unsigned)`, and `+`, `/`, `<`, `== 0.0` of the rejection branch of
+`Gamma`), core Lean only.
 
 A finite double is a dyadic rational; it is represented *unnormalised* as `m / 2^s`
 (`m : Int`, `s : Nat`).  All the values that occur in the modelled code have a
@@ -50,6 +51,8 @@ namespace FVal
 
 def ofInt (i : Int) : FVal := .fin i 0
 def one : FVal := .fin 1 0
+def two : FVal := .fin 2 0
+def zero : FVal := .fin 0 0
 
 def isNegF : FVal → Bool
   | .fin m _ => decide (m < 0)
@@ -80,6 +83,42 @@ def sub : FVal → FVal → FVal
   | .fin _ _, .inf n => .inf (!n)
   | .inf n, .inf k => if n = k then .nan else .inf n
 
+/-- `a + b` (`inf + -inf` is NaN) -/
+def add : FVal → FVal → FVal
+  | .fin a s, .fin b t => roundFin (a * 2 ^ t + b * 2 ^ s) (s + t)
+  | .nan, _ => .nan
+  | _, .nan => .nan
+  | .inf n, .fin _ _ => .inf n
+  | .fin _ _, .inf n => .inf n
+  | .inf n, .inf k => if n = k then .inf n else .nan
+
+/-- Correctly rounded quotient of two finite values, divisor non-zero: `(a / 2^s) / (b / 2^t)`.
+With `N = |a| 2^t`, `D = |b| 2^s` the exact quotient is `N / D`; `p` is chosen so that
+`q = ⌊N 2^p / D⌋` has at least 55 significant bits, a sticky bit (`N 2^p mod D ≠ 0`) is appended
+below `q`, and `2 q + sticky` at scale `p + 1` is rounded by `roundFin` (at least two bits are
+dropped, so the sticky bit decides ties exactly as the infinitely precise quotient would). -/
+def divFin (a : Int) (s : Nat) (b : Int) (t : Nat) : FVal :=
+  let n := a.natAbs * 2 ^ t
+  let d := b.natAbs * 2 ^ s
+  let p := (bitlen d + 55) - bitlen n
+  let q := n * 2 ^ p / d
+  let st := if n * 2 ^ p % d = 0 then 0 else 1
+  let m : Int := ((2 * q + st : Nat) : Int)
+  roundFin (if decide (a < 0) != decide (b < 0) then -m else m) (p + 1)
+
+/-- `a / b` with the IEEE special cases: `x / 0 = ±inf` for finite `x ≠ 0` (and for `x = ±inf`),
+`0 / 0 = NaN`, `inf / inf = NaN`, `x / inf = 0`.  Signed zeros are not distinguished: a zero
+divisor is taken to be `+0.0`, which is what `Random()` returns (`return 0.0;`), the only zero
+divisor that can occur in the modelled code. -/
+def div : FVal → FVal → FVal
+  | .nan, _ => .nan
+  | _, .nan => .nan
+  | .fin a s, .fin b t =>
+    if b = 0 then (if a = 0 then .nan else .inf (decide (a < 0))) else divFin a s b t
+  | .inf n, .fin b _ => .inf (n != decide (b < 0))
+  | .fin _ s, .inf _ => .fin 0 s
+  | .inf _, .inf _ => .nan
+
 /-- `floor` (exact) -/
 def floor : FVal → FVal
   | .fin m s => .fin (m / 2 ^ s) 0
@@ -93,6 +132,14 @@ def gt : FVal → FVal → Bool
   | .inf n, .inf k => !n && k
   | .inf n, .fin _ _ => !n
   | .fin _ _, .inf k => k
+
+/-- `a < b` on doubles (false if either is NaN) -/
+def lt (a b : FVal) : Bool := gt b a
+
+/-- `a == 0.0` (false for NaN and infinities) -/
+def isZero : FVal → Bool
+  | .fin m _ => decide (m = 0)
+  | _ => false
 
 /-- `a ≤ b` as real numbers, for finite values -/
 def leFin (a : Int) (s : Nat) (b : Int) (t : Nat) : Prop := a * 2 ^ t ≤ b * 2 ^ s
